@@ -633,11 +633,11 @@ fn model_doc(run: &RunSpec, doc: &DocSpec) -> Result<DocModel, Undecided> {
                     None => {}
                     Some(l) if w >= l => {
                         // the sleep alone is at least the whole document limit: the budget is
-                        // certainly gone when the wait ends. Decided only when another plain
-                        // test case follows (otherwise nothing "after" can show it)
+                        // certainly gone when the wait ends, the document is reported as timed out
+                        // (at this test case, or at the next one if there is one)
                         let rest = &tests[i + 1..];
-                        if rest.is_empty() || rest.iter().any(|(_, r)| r.detached || r.wait_ms.is_some()) {
-                            return Err("document budget used up by the wait of the last test case".into());
+                        if rest.iter().any(|(_, r)| r.detached || r.wait_ms.is_some()) {
+                            return Err("document budget used up by a wait in front of a detached / waiting test case".into());
                         }
                         if elapsed > 0 {
                             return Err("wait after a sleeping test case".into());
